@@ -90,8 +90,10 @@ def prune_cache(keep=3):
     if not os.path.isdir(root):
         return
     ents = sorted((os.path.getmtime(os.path.join(root, e)), e) for e in os.listdir(root))
-    for _, e in ents[:-keep]:
-        if e != tree_hash():
+    now = time.time()
+    for mt, e in ents[:-keep]:
+        # never touch the current tree's cache or one that another check may still be using
+        if e != tree_hash() and now - mt > 3 * 3600:
             shutil.rmtree(os.path.join(root, e), ignore_errors=True)
 
 
